@@ -430,26 +430,33 @@ func getBlockedRootFields(rootValue cue.Value, rootFieldName string) (blockedFie
 		validFields[dep] = struct{}{}
 	}
 
-	var nextDependencies []string
-loop:
-	for _, d := range dependencies {
-		nextValue, err = findValueAtPath(rootValue, CuePath{d})
-		if err != nil {
-			return nil, fmt.Errorf("failed to find dependency '%s' in cue value: %w", d, err)
-		}
+	// Walk the dependency graph breadth first, visiting every step once so that
+	// fan-in, diamonds and cycles are all handled.
+	visited := map[string]struct{}{}
+	for len(dependencies) > 0 {
+		var nextDependencies []string
+		for _, d := range dependencies {
+			if _, ok := visited[d]; ok {
+				continue
+			}
+			visited[d] = struct{}{}
 
-		nextDependencies, err = getConcreteValuesForListOfStringValueAtPath(nextValue, CuePath{string(BP_Dependencies)})
-		if err != nil {
-			return nil, fmt.Errorf("failed to find nextDependencies in cue value: %w", err)
-		}
+			nextValue, err = findValueAtPath(rootValue, CuePath{d})
+			if err != nil {
+				return nil, fmt.Errorf("failed to find dependency '%s' in cue value: %w", d, err)
+			}
 
-		for _, dep := range nextDependencies {
-			validFields[dep] = struct{}{}
+			depsOfD, err := getConcreteValuesForListOfStringValueAtPath(nextValue, CuePath{string(BP_Dependencies)})
+			if err != nil {
+				return nil, fmt.Errorf("failed to find nextDependencies in cue value: %w", err)
+			}
+
+			for _, dep := range depsOfD {
+				validFields[dep] = struct{}{}
+			}
+			nextDependencies = append(nextDependencies, depsOfD...)
 		}
-	}
-	if len(nextDependencies) > 0 {
 		dependencies = nextDependencies
-		goto loop
 	}
 
 	allFields, err := getAvailableFieldsForValue(rootValue, nil)
